@@ -151,7 +151,7 @@ func genC06(e *emitter, tier string, seed uint64) {
 	hashTypes := []byte{0x41, 0x42, 0x43, 0xc1, 0xc2, 0xc3, 0x01, 0x02, 0x03, 0x81, 0x82, 0x83}
 	shapes := 3
 	if !quick {
-		shapes = 25
+		shapes = 10
 	}
 	for sh := 0; sh < shapes; sh++ {
 		nIn := 1 + r.n(3)
@@ -180,6 +180,22 @@ func genC06(e *emitter, tier string, seed uint64) {
 							res := ixExecTx(e, era|fl, rawPush(sig), lock, tx, idx, sats)
 							note("checksig."+sc.name, res)
 						}
+					}
+				}
+			}
+		}
+		// ---- undefined / unusual hash-type bytes, signed for real with that byte, under the flags that police them
+		if sh == 0 {
+			k := keys[0]
+			lock := append(rawPush(k.pubC), 0xac)
+			for _, ht := range []byte{0x00, 0x04, 0x05, 0x1f, 0x20, 0x21, 0x23, 0x40, 0x44, 0x5f, 0x60, 0x61, 0x62, 0x63, 0x64, 0x80, 0x84, 0xa1, 0xc0, 0xc4, 0xe1, 0xe2, 0xe3, 0xff} {
+				sig := signFor(tx, idx, lock, sats, ht, k, false)
+				for _, fl := range []int{0, fStrictEnc, fForkID, fForkID | fBip143, fStrictEnc | fBip143, fForkID | fStrictEnc | fBip143} {
+					for _, era := range []int{0, fAfterGenesis} {
+						res := ixExecTx(e, era|fl, rawPush(sig), lock, tx, idx, sats)
+						note("checksig.odd-hashtype", res)
+						// and observed through NOT, which tells "false" from "error"
+						ixExecTx(e, era|fl, rawPush(sig), append(append([]byte{}, lock...), 0x91), tx, idx, sats)
 					}
 				}
 			}
